@@ -61,3 +61,32 @@ Require RV.Gen.Sites RV.Model.SiteMap RV.Proofs.SitesLits.
 Theorem C08_literals_reviewed : RV.Model.SiteMap.literals_ok RV.Model.SiteMap.files_C08.
 Proof. apply RV.Proofs.SitesLits.literals_okb_sound. vm_compute. reflexivity. Qed.
 Print Assumptions C08_literals_reviewed.
+
+(* ---- Server::compute_delay AS TRANSLATED FROM THE SOURCE on this run (the jittered delay with which every
+   statistics tick re-arms its timer): `base - Duration::from_millis(jitter)` is a subtraction that panics on
+   underflow; it is only reached for a base of at least one second and a jitter of at most 255 ms, so it never
+   does, and the timer is re-armed with a positive delay within 255 ms of the base. (The draw loop ends at the
+   first generator output whose low byte is not zero.) ---- *)
+Require Import RV.Model.Bytes RV.Model.Message RV.Model.GenSupport RV.Gen.Code RV.Proofs.CodeDelay.
+From Coq Require Import NArith List.
+
+Theorem C08_translated_timer_delay_is_model :
+  forall base zs v rest,
+  (second <= base)%N -> (forall z, In z zs -> low_byte z = 0%N) -> low_byte v <> 0%N ->
+  gen_compute_delay base (zs ++ v :: rest)
+  = Ok (if (N.land (low_byte v) 1 =? 1)%N then (base - low_byte v * ms)%N else (base + low_byte v * ms)%N, rest).
+Proof. exact gen_compute_delay_model. Qed.
+Print Assumptions C08_translated_timer_delay_is_model.
+
+Theorem C08_translated_timer_delay_bounds :
+  forall base zs v rest d r,
+  (second <= base)%N -> (forall z, In z zs -> low_byte z = 0%N) -> low_byte v <> 0%N ->
+  gen_compute_delay base (zs ++ v :: rest) = Ok (d, r) ->
+  (0 < d)%N /\ (base - 255 * ms <= d <= base + 255 * ms)%N /\ d <> base /\ r = rest.
+Proof. exact gen_compute_delay_bounds. Qed.
+Print Assumptions C08_translated_timer_delay_bounds.
+
+Theorem C08_translated_timer_delay_small :
+  forall base rng, (base < second)%N -> gen_compute_delay base rng = Ok (base, rng).
+Proof. exact gen_compute_delay_small. Qed.
+Print Assumptions C08_translated_timer_delay_small.
